@@ -2,7 +2,7 @@
    indices of one width that suffices for every bucket count, and they
    increase — as strings — with the index, hence with the bounds. *)
 From Coq Require Import ZArith List Bool Arith Lia.
-From Tally Require Import Base.Obs Base.Search Gen.Params Model.Varint Model.Thrift Model.Buckets Model.M3Pipe
+From Tally Require Import Base.ObsCore Base.Search Gen.Params Model.Varint Model.Thrift Model.Buckets Model.M3Pipe
   Proof.BucketsP.
 Import ListNotations.
 Open Scope nat_scope.
